@@ -27,7 +27,8 @@ BAD_JUMP = ("InvalidOffsetForJump", "InvalidJumpTarget", "NonExistentJumpTarget"
 def replay_kind(out, kind, jumpi):
     """Native confirmation for an error-classification model: run a program raising that kind in both modes."""
     if kind in BAD_JUMP:
-        judge = lambda d: (not d.get("permissive_ok", True)) or (d.get("strict_ok", False) and kind != "NoConcreteJumpDestination")
+        judge = lambda d: ((not d.get("permissive_ok", True)) or (d.get("strict_ok", False) and kind != "NoConcreteJumpDestination")
+                           or d.get("fallthrough_dropped", False))
     else:
         judge = lambda d: d.get("permissive_ok", False) or d.get("strict_ok", False) or d.get("gas_location_wrong", False)
         if kind == "GasLimitExceeded":
